@@ -267,9 +267,23 @@ def rule_source(ctx, cd):
     ok = len(loops) == 1 and loops[0].test is None
     ctx.ob(R, t.rel, "py: every constant is exported (unfiltered loop)", ok, "")
     _constants_unconditional(ctx, R, cd, t, "py", loops)
-    srcs = {loopvar_norm(t, xs(g2)) for g2 in loops[0].find_all(N.Getattr) if loopvar_norm(t, xs(g2)).startswith("<each:constants>.value")} if loops else set()
+    # what the loop prints for a constant, helper macros that are handed the constant included (their text in the caller's terms)
+    spelled, called = [], []
+    if loops:
+        spelled = [xs(g2) for g2 in loops[0].find_all(N.Getattr)]
+        called = [xs(c) for c in loops[0].find_all(N.Call)]
+        vis = _codec.macros_visible(cd.ts, t)
+        for c in loops[0].find_all(N.Call):
+            if isinstance(c.node, N.Name) and c.node.name in vis:
+                mac = vis[c.node.name]
+                mapping = {a_.name: c.args[i_] for i_, a_ in enumerate(mac.args) if i_ < len(c.args)}
+                with j2front.xs_with(mapping or None):
+                    for b_ in mac.body:
+                        spelled += [xs(g2) for g2 in b_.find_all(N.Getattr)]
+                        called += [xs(c2) for c2 in b_.find_all(N.Call)]
+    srcs = {loopvar_norm(t, x_) for x_ in spelled if loopvar_norm(t, x_).startswith("<each:constants>.value")}
     ok = srcs >= {"<each:constants>.value.native_value", "<each:constants>.value.native_value.numerator", "<each:constants>.value.native_value.denominator"} \
-        and any("as_native_integer" in xs(c) for c in loops[0].find_all(N.Call))
+        and any("as_native_integer" in x_ for x_ in called)
     ctx.ob(R, t.rel, "py: constants come from c.value (bool: native_value, int: as_native_integer(), float: exact numerator/denominator)", ok, f"{sorted(srcs)}")
 
 
